@@ -29,7 +29,7 @@ def fresh():
         shutil.copy("/verif/harness/Cargo.toml", f"{CF}/harness/Cargo.toml")
         sh(f"sed -i 's#\"/repo#\"{CF}/repo#' {CF}/harness/Cargo.toml")
 
-EXTRA = {"C11": ["vp-mojang"], "C05": ["vp-conn"]}  # sub-runs that ./check performs for a property besides its main monitor
+EXTRA = {"C11": ["vp-mojang"], "C05": ["vp-conn"], "C13": ["vp-net"]}  # sub-runs that ./check performs for a property besides its main monitor
 
 def run_one(pkg, prop, tier):
     rc, out = sh(f"CARGO_TARGET_DIR={CF}/htarget cargo build --offline --profile verif -p {pkg}", cwd=f"{CF}/harness")
@@ -91,6 +91,11 @@ def main():
             demo_cmd = demo_cmd.replace("cargo test", "cargo test --offline")
         # 1. patch applies, suite passes
         rc, out = sh(f"patch -p1 --no-backup-if-mismatch < {src}/patch.diff", cwd=f"{CF}/repo")
+        if rc != 0:
+            # the tree moved on since the change was written (hook commit): retry with more fuzz
+            fresh()
+            rc, out = sh(f"patch -p1 -F 5 --no-backup-if-mismatch < {src}/patch.diff", cwd=f"{CF}/repo")
+            res["patch_fuzz"] = True
         if rc != 0:
             res["confirm"] = "patch does not apply: " + out[-300:]; print(sid, res["confirm"]); json.dump(res, open(f"{src}/eval.json", "w"), indent=1); continue
         rc, out = sh(f"CARGO_NET_OFFLINE=true CARGO_TARGET_DIR={CF}/rtarget cargo test --workspace --no-fail-fast --offline", cwd=f"{CF}/repo")
